@@ -23,8 +23,11 @@ import NdnModel.Basic
     `o` verifies under key bits `k`" (after `import_key` succeeded) is the abstract function
     `crypto k o`.  Nothing is assumed about it in the model; the theorems state the ideal-signature
     hypotheses explicitly.
-  * The network is a static `world : Interest → fetch outcome`: what comes back for a certificate
-    Interest, as a function of the WHOLE Interest (name, CanBePrefix, MustBeFresh, lifetime).  The only
+  * The network is a `world : Interest → fetch outcome`: what comes back for a certificate
+    Interest, as a function of the WHOLE Interest (name, CanBePrefix, MustBeFresh, lifetime).  It is fixed during
+    one validation (`validate`, `runSys`: fixed during a whole history); the last section (`runD`) lets it change
+    BETWEEN validations and makes the key storage objects (EmptyKeyStorage, MemoryKeyStorage objects that several
+    instances may have been handed) explicit.  The only
     Interest the validator ever sends for a key locator `kn` is `certInterest kn` (exact name,
     MustBeFresh, default lifetime; theorem `Ndn.C14.log_only_cert_interests`, generated table
     `Ndn.Gen.C14.fetchKwargs`).  The NDNApp machinery (`express_interest`, PIT, timeout) is the function
@@ -207,6 +210,77 @@ def traceSys (envs : Nat → Env N) : (Nat → Cache N) → List (Nat × Nat × 
   | cs, (i, f, o) :: r =>
     let x := validate (envs i) f (cs i) o
     (x.verdict, x.log) :: traceSys envs (setCache cs i x.cache) r
+
+/-! ### the certificate world changes between validations; the key storage is an explicit object
+
+  A history is a list of events: `validate i fuel o` (instance `i` is asked about the packet `o`) and
+  `world w` (from now on the network answers as `w`: a certificate appears, disappears, times out, is Nacked, is
+  replaced by another one of the same name, …).  The key storage an instance was given is explicit
+  (`StoreRef`): `EmptyKeyStorage` (`load` answers `None`, `save` does nothing) or the `MemoryKeyStorage`
+  object number `s` - the same number for every instance the caller handed that object to.  `CascadeChecker.validate`
+  reads the storage once per element of the chain BEFORE fetching (`self.storage.load(cert_name)`), and writes
+  `self.storage.save(cert_name, key_bits)` only after `express_interest` returned, i.e. after the fetched certificate
+  was validated by `next_level` with verdict `True`, and only if its Content is non-empty; it writes it BEFORE the
+  signature of the element that named the certificate is verified, and nothing is written when the fetch fails
+  (timeout, Nack, refused certificate) or raises.  That is `validate` above; here the storage it works on is
+  looked up in, and written back to, the table of storage objects. -/
+
+abbrev World (N : Type) := Interest N → Option (Outcome N)
+
+/-- the storage object an instance holds -/
+inductive StoreRef where
+  | empty              -- an `EmptyKeyStorage`
+  | mem (s : Nat)      -- the `MemoryKeyStorage` object number `s`
+  deriving DecidableEq, Repr
+
+/-- a validator instance without its network: schema check, crypto, anchor, storage object -/
+structure Cfg (N : Type) where
+  allowed    : N → N → Except PyErr Bool
+  crypto     : Key → Obj N → Bool
+  anchorName : N
+  anchorKey  : Key
+  store      : StoreRef
+
+/-- the instance in front of the network `w` -/
+def Cfg.env (c : Cfg N) (w : World N) : Env N := ⟨c.allowed, c.crypto, w, c.anchorName, c.anchorKey⟩
+
+inductive Event (N : Type) where
+  | validate (i : Nat) (fuel : Nat) (o : Obj N)
+  | world (w : World N)
+
+/-- the network as it answers now, and the content of every `MemoryKeyStorage` object -/
+structure DState (N : Type) where
+  world  : World N
+  stores : Nat → Cache N
+
+/-- what `self.storage.load` sees during one validation -/
+def loadStore (st : DState N) : StoreRef → Cache N
+  | .empty => []
+  | .mem s => st.stores s
+
+/-- the storage objects after a validation that left `c` in the storage it worked on -/
+def saveStore (stores : Nat → Cache N) : StoreRef → Cache N → (Nat → Cache N)
+  | .empty, _ => stores                      -- `EmptyKeyStorage.save` returns at once
+  | .mem s, c => setCache stores s c
+
+/-- instance `i` validates `o` in the state `st` -/
+def validateD (cfgs : Nat → Cfg N) (st : DState N) (i fuel : Nat) (o : Obj N) : Res N :=
+  validate ((cfgs i).env st.world) fuel (loadStore st (cfgs i).store) o
+
+def stepD (cfgs : Nat → Cfg N) (st : DState N) : Event N → DState N
+  | .validate i f o => ⟨st.world, saveStore st.stores (cfgs i).store (validateD cfgs st i f o).cache⟩
+  | .world w => ⟨w, st.stores⟩
+
+def runD (cfgs : Nat → Cfg N) : DState N → List (Event N) → DState N
+  | st, [] => st
+  | st, e :: r => runD cfgs (stepD cfgs st e) r
+
+/-- what is observable of a history: per `validate` event the verdict and the certificate Interests -/
+def traceD (cfgs : Nat → Cfg N) : DState N → List (Event N) → List (Option Verdict × List (Interest N))
+  | _, [] => []
+  | st, .validate i f o :: r =>
+    ((validateD cfgs st i f o).verdict, (validateD cfgs st i f o).log) :: traceD cfgs (stepD cfgs st (.validate i f o)) r
+  | st, .world w :: r => traceD cfgs (stepD cfgs st (.world w)) r
 
 /-! ### construction (`lvs_validator` up to `CascadeChecker.__init__`) -/
 
